@@ -1,18 +1,7 @@
 #![no_main]
-//! libFuzzer target for C09: bytes -> (instantiation, a, b) -> the same oracle as the proptest side.
+//! libFuzzer target fz_gcd: bytes -> case (see harness/src/fuzzdec.rs) -> the same oracle as the proptest side.
 use libfuzzer_sys::fuzz_target;
 
-static HOOK: std::sync::Once = std::sync::Once::new();
-
 fuzz_target!(|data: &[u8]| {
-    // wrap libFuzzer's abort-on-panic hook: panics caught by the oracle (guard/catch) stay silent
-    HOOK.call_once(yqv::engine::install_panic_hook);
-    if let Some(c) = yqv::fuzzdec::gcd_case(data) {
-        let mut l = yqv::engine::Local::new();
-        if let Err(f) = yqv::props::c09::check(&c, &mut l) {
-            if !f.class.starts_with("HARNESS|") {
-                panic!("YQV-FUZZ-VIOLATION {} :: {}", f.sig(), f.what);
-            }
-        }
-    }
+    yqv::fuzzdec::run_target("fz_gcd", data);
 });
